@@ -81,8 +81,14 @@ class C09(F.Spec):
                "rsmanual 0", "adv 1500", "rstick 0 10000", "rstick 0 0",
                "msg 110 " + set_value(7, 0, dur, [2 if up else 1]).hex()]
         left = run
+        small = rng.random() < 0.12          # runs made only of short, equal intervals (sub-unit carries on every callback)
+        sdt = rng.choice([1000, 2000, 3000, 7000])
+        if small:
+            left = run = min(run, 3000000)
         while left > 0:
             dt = min(left, rng.choice([1000, 5000, 10000, 10000, 20000, 100000, 250000, rng.randint(1000, 250000)]))
+            if small:
+                dt = min(left, sdt)
             if run > 30 * 1000000:
                 dt = min(left, rng.choice([250000, 200000, 100000]))      # long runs: keep the case short
             ops.append("rstick 0 %d" % dt)
@@ -193,7 +199,7 @@ class C09(F.Spec):
             for x in g:
                 if x.startswith("RSTICK "):
                     f = dict(p.split("=") for p in x.split()[2:])
-                    t = int(f["t"])
+                    t = int(f["t0"])
                     is_on = int(f["up" if me["up"] else "down"]) == 1
                     if is_on and last_t is not None:     # the relay is switched right after a callback: the interval before a
                         T += t - last_t                  # callback that sees it on belongs to the run
@@ -254,7 +260,7 @@ class C09(F.Spec):
                 if x.startswith("MV "):
                     vals.add(x.split()[1])
                 elif x.startswith("RSTICK "):
-                    vals.add(x.split()[2])
+                    vals.add(x.split()[3])
         if len(vals) < 2:
             return None
         ends = any(v in ("100", "10100", "pos=100", "pos=10100") for v in vals)
